@@ -33,7 +33,7 @@ def log(*a):
 class Scratch:
     """A throw-away copy of /repo's sources with the harness modules mounted."""
 
-    def __init__(self, groups, keep=False, features=()):
+    def __init__(self, groups, keep=False, features=(), use_cache=True):
         base = os.environ.get("KV_SCRATCH_BASE") or tempfile.gettempdir()
         self.dir = tempfile.mkdtemp(prefix="kv-%d-" % os.getpid(), dir=base)
         self.keep = keep
@@ -42,6 +42,10 @@ class Scratch:
         self.target = os.path.join(self.dir, "td")
         self.mounted = []
         self._assemble()
+        cache = os.path.join(VERIF, ".cache", "td")
+        if use_cache and os.path.isdir(cache) and os.environ.get("KV_NO_CACHE") != "1":
+            # dependency artefacts built once by bin/setup (hard links; the crate itself is rebuilt)
+            subprocess.run(["cp", "-al", cache, self.target], check=False)
 
     def _assemble(self):
         shutil.copytree(os.path.join(REPO, "src"), os.path.join(self.dir, "src"))
@@ -247,9 +251,11 @@ class KaniResult:
         self.vccs = (0, 0)
         self.log = ""
         self.note = ""
+        self.stubs = []
 
     def parse(self, out):
         self.log = out
+        self.stubs = sorted(set(x.replace(" :: ", "::").replace(" -> ", " -> ") for x in re.findall(r"- Stub: ([^\n]*)", out)))
         for m in CHECK_RE.finditer(out):
             name, status, desc, loc = m.group(2), m.group(3), m.group(4).strip().strip('"'), m.group(5)
             if ".cover." in name or status in ("SATISFIED", "UNSATISFIABLE"):
